@@ -87,6 +87,14 @@ func (v *PacketDslVisitorImpl) VisitPacket(ctx *gen.PacketContext) interface{} {
 			switch c := decl.(type) {
 			case *gen.RefMetaDataDeclarationContext:
 				result := v.VisitRefMetaDataDeclaration(c).(model.MetaData)
+				if result.Attr == nil {
+					v.BinModel.AddSyntaxError(&model.SyntaxError{
+						Line:   result.Line,
+						Column: result.Column,
+						Msg:    "Unknown metadata type " + c.GetTyp().GetText() + " for " + result.Name,
+					})
+					continue
+				}
 				v.BinModel.AddMetaData(result)
 			case *gen.MetaDataDeclarationContext:
 				result := v.metaDataDeclarationToMetaData(c).(model.MetaData)
